@@ -353,6 +353,7 @@ func parseTextWebVTT(i string, sa *StyleAttributes) (o Line) {
 	tr := html.NewTokenizer(strings.NewReader(i))
 
 	// Loop
+	var pendingTimestamp time.Duration
 	for {
 		// Get next tag
 		t := tr.Next()
@@ -413,7 +414,26 @@ func parseTextWebVTT(i string, sa *StyleAttributes) (o Line) {
 			}
 
 			// Append items
-			o.Items = append(o.Items, parseTextWebVTTTextToken(styleAttributes, string(tr.Raw()))...)
+			raw := string(tr.Raw())
+			items := parseTextWebVTTTextToken(styleAttributes, raw)
+
+			// An inline timestamp directly followed by a tag ends the previous text token: it applies to the
+			// first text that follows
+			for idx := range items {
+				if strings.TrimSpace(items[idx].Text) != "" {
+					if pendingTimestamp > 0 && items[idx].StartAt == 0 {
+						items[idx].StartAt = pendingTimestamp
+					}
+					pendingTimestamp = 0
+					break
+				}
+			}
+			if indexes := webVTTRegexpInlineTimestamp.FindAllStringSubmatchIndex(raw, -1); len(indexes) > 0 {
+				if last := indexes[len(indexes)-1]; strings.TrimSpace(raw[last[1]:]) == "" {
+					pendingTimestamp, _ = parseDurationWebVTT(raw[last[2]:last[3]])
+				}
+			}
+			o.Items = append(o.Items, items...)
 		}
 	}
 	return
